@@ -114,10 +114,12 @@ class TapeRecorder(object):
         """
         Discards currently active recording process
         """
-        if self._active_recording is not None:
+        # Read the shared state once, another thread may discard the recording at the same time
+        recording = self._active_recording
+        if recording is not None:
             _logger.info(
-                u'Recording with id {} was discarded'.format(self._active_recording.id))
-            self.tape_cassette.abort_recording(self._active_recording)
+                u'Recording with id {} was discarded'.format(recording.id))
+            self.tape_cassette.abort_recording(recording)
             self._reset_active_recording()
             _verif_trace.emit('discard', r=id(self))
 
